@@ -159,17 +159,19 @@ class _PendingCompoundStmt(PendingNode[T]):
                 # since they never run
                 break
 
-        while len(stack) > 1:
-            # wrap nodes with an "if" to check interrupt at run time
-            wrapped = stack.pop()
-            stack[-1].append(
+        converted_branch.extend(stack[0])
+        for wrapped in stack[1:]:
+            # Wrap nodes with an "if" to check interrupt at run time.
+            # Once the flag is set it stays set until the end of the branch,
+            # so the groups are checked one after another instead of being nested
+            # (a long sequence of `if ...: return` would be a deeply nested expr)
+            converted_branch.append(
                 IfExp(
                     test=UnaryOp(op=Not(), operand=get_flow_control_expr()),
                     body=self.nsp_global.expr_wraper(wrapped),
                     orelse=Constant(value=...),
                 )
             )
-        converted_branch.extend(stack[0])
 
 
 class PendingIf(_PendingCompoundStmt[If]):
